@@ -85,7 +85,7 @@ pub fn run(ctx: &mut Ctx) {
     }
 
     // ---- implementation-only oracle ----
-    let per_thread = if ctx.quick() { 12 } else { 300 };
+    let per_thread = if ctx.quick() { 12 } else { 800 };
     let seed = ctx.seed;
     let res = par(16, |t| {
         let mut rng = Rng::new(seed, &format!("C02/oracle/{}", t));
